@@ -516,3 +516,33 @@ theorem primFacts : PrimFacts where
   uuidParse_len := uuidParse_len
 
 end Avro
+
+namespace Avro
+
+/-- sign extension to any width that holds the number succeeds, has that width and denotes the number -/
+theorem signExtend_ok (i : Int) (len : Nat) (h : (if i = 0 then 0 else minWidth i) ≤ len) :
+    ∃ b, signExtend i len = .ok b ∧ b.length = len ∧ fromSignedBE b = i := by
+  unfold signExtend
+  simp only []
+  by_cases hi : i = 0
+  · subst hi
+    refine ⟨List.replicate len 0, by simp, by simp, fromSignedBE_zeros len⟩
+  · simp only [hi, if_false] at h ⊢
+    have hlen := toSignedBE_length i
+    have hnot : ¬ (len < (toSignedBE i).length) := by omega
+    simp only [hnot, if_false]
+    refine ⟨_, rfl, by simp; omega, ?_⟩
+    cases hraw : toSignedBE i with
+    | nil => rw [hraw, minWidth_eq] at hlen; simp at hlen
+    | cons c cs =>
+      have hval : fromSignedBE (c :: cs) = i := by rw [← hraw]; exact fromSignedBE_toSignedBE i
+      have hneg := fromSignedBE_neg_iff (c :: cs)
+      rw [hval] at hneg
+      have hpad : (if i < 0 then (0xFF : UInt8) else 0) = (if negBE (c :: cs) then (0xFF : UInt8) else 0) := by
+        by_cases hlt : i < 0
+        · simp [hlt, hneg.mp hlt]
+        · have : ¬ (negBE (c :: cs) = true) := fun h => hlt (hneg.mpr h)
+          simp [hlt, this]
+      rw [hpad, (fromSignedBE_replicate _ c cs).1, hval]
+
+end Avro
